@@ -77,7 +77,9 @@ static inline int remove_node(m_bst_t *l, bst_node **elem) {
          * (smallest in the right subtree)
          */
         bst_node **tmp = find_min_subtree(&node->right);
+        void *removed = node->userptr;
         node->userptr = (*tmp)->userptr; // switch userdata
+        (*tmp)->userptr = removed; // the dtor must run on the removed data, not on the successor's
         return remove_node(l, tmp); // remove useless left-most node in the right subtree
     }
     return -ENOENT;
